@@ -14,7 +14,7 @@ import importlib
 
 from run import Broken, Violation
 
-GEN = ["Aes"]
+GEN = ["Aes", "PyAes"]
 RULE = ("structured stream: key length in {16,24,32} x message of 0..8 blocks x random / all-zero / all-0xFF / "
         "single-bit / FIPS and SP 800-38A vectors, through ECB and CBC both directions, every round function on "
         "random states, key schedule, block functions, CryptAES encrypt+decrypt for every message length 0..64 "
